@@ -240,6 +240,24 @@ def check_relations(case):
             add(wrap(f"{lhs} >= {rhs}"), ERR if cm == ERR else cm >= 0)
             add(wrap(f"std.__compare({lhs}, {rhs})"), ERR if cm == ERR else float(cm))
 
+    # both operands already evaluated (by an earlier use in the same program) when they are compared
+    def evaluated_first(ex, ey, x, y):
+        eq, cm = ref_eq(x, y), ref_cmp(x, y)
+        head = f"local x = {ex}, y = {ey}; local forced = std.length(std.toString([x, y])); if forced >= 0 then "
+        add(head + "x == y else null", eq)
+        add(head + "x < y else null", ERR if cm == ERR else cm < 0)
+        add(head + "x >= y else null", ERR if cm == ERR else cm >= 0)
+        add(head + "std.__compare(x, y) else null", ERR if cm == ERR else float(cm))
+        add(head + "std.equals(y, x) else null", eq)
+        if V.is_arr(x) and V.is_arr(y):
+            add(head + "std.__compare_array(x, y) else null", ERR if cm == ERR else float(cm))
+            add(head + "std.__array_less(x, y) else null", ERR if cm == ERR else cm < 0)
+            add(head + "std.__array_less_or_equal(x, y) else null", ERR if cm == ERR else cm <= 0)
+            add(head + "std.__array_greater(x, y) else null", ERR if cm == ERR else cm > 0)
+            add(head + "std.__array_greater_or_equal(y, x) else null", ERR if cm == ERR else cm <= 0)
+
+    evaluated_first(ea, eb, a, b)
+    evaluated_first(eb, ec, b, c)
     shared(f"local v = {ea};", "v", "v", a, a)
     if V.is_arr(a) and V.is_arr(b):
         ia, ib = a["a"], b["a"]
@@ -343,6 +361,6 @@ def check_fixed(case):
 
 
 CHECKS = [
-    Check("relations_vs_reference", check_relations, case, quick=300, thorough=10000),
+    Check("relations_vs_reference", check_relations, case, quick=400, thorough=10000),
     Check("fixed_order_and_equality_cases", check_fixed, enumerate_fn=enum_fixed, exhaustive=True),
 ]
